@@ -356,6 +356,20 @@ def r3_reward(ctx):
         if fp and tp and fp[0] == "delta" and tp[0] == "set":
             s = fp[1] + (tp[1] - q.Lin({"tips@0": 1})) + val
             r.check(s == q.Lin({}, 0), "conservation", "Δfee_pool + Δtips + coin value = 0", "Δfee_pool + Δtips + coin value = %r ≠ 0" % s, where)
+    # every path: the three effects (fee_pool debit, tips reset, reward coin) are not skipped on a special case.  A path that returns without
+    # one of them is reported unless what it skips is provably nothing (not attempted: a zero-reward early return also drops the tips).
+    effects = [("coin", bi) for bi, t in ins]
+    for fld in ("fee_pool", "tips"):
+        for w in q.stmt_writes(body, fld):
+            effects.append((fld, w[1]))
+    for nm in ("coin", "fee_pool", "tips"):
+        blocks = [bb for n_, bb in effects if n_ == nm]
+        if not blocks:
+            continue
+        wo = body.reachable(0, removed=blocks)
+        r.check(not any(x in wo for x in body.return_blocks()), "every-path/" + nm, "%s is updated on every path" % nm,
+                "a path through collect_proposer_action_fee returns without %s: the proposer is not paid exactly fee_pool/65536 + tips on that path"
+                % {"coin": "creating the reward coin", "fee_pool": "debiting the fee pool", "tips": "resetting the tips"}[nm], body.where(blocks[0]))
     # reached only under Some(action) in seal
     seal = ctx.body("melstf::state::UnsealedState::seal", r)
     apa = ctx.body("melstf::state::UnsealedState::apply_proposer_action", r)
